@@ -655,10 +655,13 @@ def c13():
                     m = re.search(r"^\s+(grits/[\w/.()*]+)\(", part, re.M)
                     if m:
                         heads.append(m.group(1))
-                if len(heads) < len(parts):
-                    # one of the two accesses is made by the driver itself, outside any function of gertab/Grits: not an access of the interpreter
+                if not heads:
+                    # neither access is inside a function of gertab/Grits: the driver's own business (it is written to be race free; reported as a note)
                     harness_induced.append(blk[:600])
                     continue
+                if len(heads) < len(parts):
+                    # the other access is made by the driver (e.g. a subscriber's consumer reading a snapshot the monitor published and keeps writing to)
+                    heads.append("(consumer of the public API)")
                 reports.append({"heads": sorted(set(heads)), "text": blk[:1800]})
         seen = {}
         for rp in reports:
@@ -668,7 +671,7 @@ def c13():
                         {"kind": "race", "heads": list(heads),
                          "debug_counters": all(any(k in h for k in ("CreateFreshChannel", "ProcessCount", "DeadProcessCount", "SpawnThenTransition", "terminate")) for h in heads)})
         for h in harness_induced[:2]:
-            v.notes.append("race report with an access made by the driver itself (not judged): " + h)
+            v.notes.append("race report without any frame of gertab/Grits (not judged): " + h)
         crashes = [(j["id"], res[j["id"]]) for j in jobs if res[j["id"]].get("crash")]
         for jid, r in crashes[:3]:
             v.notes.append("race-build run %s crashed (C01's concern): %s" % (jid, r["crash"][:200]))
